@@ -128,6 +128,14 @@ func suiteCuckoo(c *Ctx) {
 	cuckooFullRollback(c, 12, 13, true)
 	cuckooFullRollback(c, 12, 13, false)
 	cuckooFullRollback(c, 16, 11, true)
+	// walks longer than any batch an implementation might undo them in (retries "from 1 to hundreds")
+	for _, r := range []uint64{1, 2, 600, 1000} {
+		cuckooFullRollback(c, 5, 1, true, r)
+		cuckooFullRollback(c, 4, 2, false, r)
+	}
+	for r := 0; r < 6; r++ {
+		cuckooFaultDuringWalk(c, r)
+	}
 	// more slots per bucket than buckets (slot numbers and bucket numbers must not be confused)
 	for _, g := range [][2]uint64{{2, 4}, {2, 8}, {4, 8}, {3, 7}} {
 		cuckooFullRollback(c, g[0], g[1], true)
@@ -639,7 +647,59 @@ var _ = sort.Ints
 // cuckooFullRollback: a completely full filter (loaded through Import) and non-destructive inserts
 // that must fail after a LONG eviction walk (500 retries: most cells are visited, many of them
 // twice): every one of them leaves the filter exactly as it was (C14), whatever the geometry.
-func cuckooFullRollback(c *Ctx, n, b uint64, redis bool) {
+// cuckooFaultDuringWalk: Redis refuses one LSET somewhere in the eviction walk of a non-destructive
+// insert into a full filter (the command is not executed).  The insert cannot succeed; whatever it
+// reports, the walk is undone: the stored entries are what they were.
+func cuckooFaultDuringWalk(c *Ctx, round int) {
+	n, b := uint64(5), uint64(1)
+	doc := []byte(`{"s":5,"bs":1,"fpl":3,"l":5,"r":12,"b":[{"s":1,"l":1,"e":["101"],"k":""},{"s":1,"l":1,"e":["202"],"k":""},{"s":1,"l":1,"e":["303"],"k":""},{"s":1,"l":1,"e":["404"],"k":""},{"s":1,"l":1,"e":["505"],"k":""}],"k":"","mk":""}`)
+	f, err := gostatix.NewCuckooFilterRedisWithRetries(2, 2, 3, 12)
+	if err != nil || f.Import(doc, true) != nil || f.Length() != n*b {
+		return
+	}
+	c.rep.Cases++
+	before, err := f.Export()
+	if err != nil {
+		return
+	}
+	var e []byte
+	for i := 0; i < 200; i++ {
+		e = []byte(fmt.Sprintf("walk-fault-%d-%d", round, i))
+		if _, _, _, ok := cuckooPos(e, n, 3); ok {
+			break
+		}
+	}
+	fh := getFaults()
+	fh.mu.Lock()
+	fh.armed, fh.lost, fh.sticky, fh.only, fh.skip = true, false, false, "lset", 1+round
+	fh.mu.Unlock()
+	rand.Seed(c.rng.Int63())
+	ok := false
+	res := safely(func() { ok = f.Insert(e, false) })
+	fh.mu.Lock()
+	fired := fh.armed == false
+	fh.armed, fh.only, fh.skip = false, "", 0
+	fh.mu.Unlock()
+	c.op("Insert.full-filter-under-fault")
+	if !fired {
+		return // the walk issued fewer LSETs than expected: no fault happened
+	}
+	after, _ := f.Export()
+	da, _ := parseCuckoo(after, nil)
+	db, _ := parseCuckoo(before, nil)
+	if (ok && !res.panicked) || da.bucketsStr() != db.bucketsStr() || f.Length() != n*b {
+		c.fail([]string{"C14"}, "cuckoo-rollback-inexact-under-fault", fmt.Sprintf("cuckoo(n=5,b=1,fpl=3,retries=12,redis=true), full: Redis refused LSET number %d of the eviction walk of a non-destructive Insert; Insert returned %v (panic=%q), Length %d, entries %s (before: %s)", 2+round, ok, res.panicVal, f.Length(), da.bucketsStr(), db.bucketsStr()),
+			map[string]interface{}{"refused_lset": 2 + round, "before": db.bucketsStr(), "after": da.bucketsStr()})
+		return
+	}
+	c.branch("walk-under-fault")
+}
+
+func cuckooFullRollback(c *Ctx, n, b uint64, redis bool, retriesOpt ...uint64) {
+	retries := uint64(500)
+	if len(retriesOpt) > 0 {
+		retries = retriesOpt[0]
+	}
 	var bs []string
 	fp := 100
 	for i := uint64(0); i < n; i++ {
@@ -653,16 +713,16 @@ func cuckooFullRollback(c *Ctx, n, b uint64, redis bool) {
 		}
 		bs = append(bs, fmt.Sprintf(`{"s":%d,"l":%d,"e":["%s"],"k":""}`, b, b, strings.Join(es, `","`)))
 	}
-	doc := []byte(fmt.Sprintf(`{"s":%d,"bs":%d,"fpl":3,"l":%d,"r":500,"b":[%s],"k":"","mk":""}`, n, b, n*b, strings.Join(bs, ",")))
+	doc := []byte(fmt.Sprintf(`{"s":%d,"bs":%d,"fpl":3,"l":%d,"r":%d,"b":[%s],"k":"","mk":""}`, n, b, n*b, retries, strings.Join(bs, ",")))
 	var h cuckooHandle
 	if redis {
-		f, err := gostatix.NewCuckooFilterRedisWithRetries(2, 2, 3, 500)
+		f, err := gostatix.NewCuckooFilterRedisWithRetries(2, 2, 3, retries)
 		if err != nil || f.Import(doc, true) != nil {
 			return
 		}
 		h = cuckooRedis{f}
 	} else {
-		f := gostatix.NewCuckooFilterWithRetries(2, 2, 3, 500)
+		f := gostatix.NewCuckooFilterWithRetries(2, 2, 3, retries)
 		if f.Import(doc) != nil {
 			return
 		}
@@ -672,7 +732,7 @@ func cuckooFullRollback(c *Ctx, n, b uint64, redis bool) {
 		return
 	}
 	c.rep.Cases++
-	cfg := fmt.Sprintf("cuckoo(n=%d,b=%d,fpl=3,retries=500,redis=%v), completely full", n, b, redis)
+	cfg := fmt.Sprintf("cuckoo(n=%d,b=%d,fpl=3,retries=%d,redis=%v), completely full", n, b, retries, redis)
 	before, err := h.Export()
 	if err != nil {
 		return
